@@ -31,7 +31,7 @@ from harness.core import Case, ImplResult, frac
 PID = 'C06'
 LEAN_MODULES = ['ThermoVerif.Props.C06']
 RULE = ('a case = 1–4 real balanced reactions from a 17-reaction library over 12 chemicals with known Hf (random reactant, '
-        'X ∈ [0,1] incl. 0 and 1, mol/wt basis (wt by conversion or defined by weight at construction), P ∈ {0.5,1,2,10,15} bar, streams in either chemical order and under the default ideal mixture or the one with include_excess_energies=True (35 %), untagged or phase-tagged with reference / random / invalid phases), optionally '
+        'X ∈ [0,1] incl. 0 and 1, mol/wt basis (wt by conversion or defined by weight at construction), P ∈ {0.5,1,2,10,15} bar, streams in either chemical order and under the default ideal mixture (40 %+), the one with include_excess_energies=True (30 %) or a Peng–Robinson EOS mixture (30 %), untagged or phase-tagged with reference / random / invalid phases), optionally '
         'combined as ParallelReaction / SeriesReaction / ReactionSystem; dH of every reaction and set item; in 15 % of the cases a '
         'revision history on fresh Chemical copies (chemical.Hf / .Hfus = … of participating chemicals, chemicals.refresh_constants(), '
         'before or between the stream operations; reference = the chemicals\' current values); then isothermal and '
@@ -67,7 +67,7 @@ TRUSTED = ['Lean 4.33 kernel', 'harness/props/c06.py + Driver/C06.lean', 'genera
 tmo = None
 IDS = ['Water', 'Ethanol', 'Methanol', 'Glucose', 'CO2', 'O2', 'H2', 'CH4', 'AceticAcid', 'N2', 'CO', 'EthylAcetate']
 IDS_B = ['N2', 'CO2', 'EthylAcetate', 'Water', 'CH4', 'Glucose', 'O2', 'Methanol', 'H2', 'CO', 'Ethanol', 'AceticAcid']
-THERMO = []           # [thermoA, thermoB, thermoA with excess energies, thermoB with excess energies]
+THERMO = []           # [A, B, A+excess energies, B+excess energies, A+Peng–Robinson mixture, B+Peng–Robinson mixture]
 CHEM = {}             # independent per-chemical data read from the CURRENT Chemical objects of the running case
 BASE_CHEM = {}        # the same for the shared (never revised) package
 
@@ -84,7 +84,13 @@ def fresh_thermos():
     cs = {c.ID: c.copy(c.ID, CAS=c.CAS) for c in THERMO[0].chemicals}
     base = [tmo.Thermo(tmo.Chemicals([cs[i] for i in IDS]), cache=False),
             tmo.Thermo(tmo.Chemicals([cs[i] for i in IDS_B]), cache=False)]
-    return base + [with_excess(th) for th in base]
+    return base + [with_excess(th) for th in base] + [with_PR(th) for th in base]
+
+
+def with_PR(th):
+    """the same compiled chemicals under a cubic equation-of-state mixture (Peng–Robinson): H and S carry EOS departure
+    terms computed from total-flow arguments that the mixture object loads and clears around every solver call"""
+    return tmo.Thermo(th.chemicals, mixture=tmo.PRMixture.from_chemicals(th.chemicals), cache=False)
 
 
 def with_excess(th):
@@ -128,7 +134,7 @@ def setup():
     ca = tmo.Chemicals(IDS, cache=True)
     cb = tmo.Chemicals(IDS_B, cache=True)
     ta, tb = tmo.Thermo(ca, cache=False), tmo.Thermo(cb, cache=False)
-    THERMO[:] = [ta, tb, with_excess(ta), with_excess(tb)]
+    THERMO[:] = [ta, tb, with_excess(ta), with_excess(tb), with_PR(ta), with_PR(tb)]
     tmo.settings.set_thermo(ta)
     BASE_CHEM.clear(); BASE_CHEM.update(chem_data(ca))
     CHEM.clear(); CHEM.update({k: dict(v) for k, v in BASE_CHEM.items()})
@@ -344,7 +350,7 @@ def run_impl(case: Case) -> ImplResult:
         if not abs(H - Hfr) <= tolv or not abs(Hnet - (Hfr + Hffr)) <= tolv:
             fail('Hnet-not-current:' + where,
                  f'{where}: stream.H = {H!r}, stream.Hnet = {Hnet!r} but a freshly built stream with the same flows, phase, '
-                 f'T={float(s.T)}, P has H = {Hfr!r}, H + Hf = {Hfr + Hffr!r} (a value memoised before the flows changed is served)')
+                 f'T={float(s.T)}, P has H = {Hfr!r}, H + Hf = {Hfr + Hffr!r} (the value served is not that of the current state of the stream: a stale memo, or state cached inside the mixture object)')
         return Hfr + Hffr
 
     for line in case.ops:
@@ -471,7 +477,7 @@ def run_impl(case: Case) -> ImplResult:
             sid, pk, T, P, ph = t[1], int(t[2]), float(t[3]), float(t[4]), t[5]
             flows = [f.split(':') for f in t[6].split(',')] if len(t) > 6 and t[6] else []
             th = thermos[pk]
-            tags.add('pkg:excess-energies' if pk >= 2 else 'pkg:default-mixture')
+            tags.add('pkg:PR-mixture' if pk >= 4 else 'pkg:excess-energies' if pk >= 2 else 'pkg:default-mixture')
             if P > 1100000: tags.add('P:15bar')
             if len(ph) == 1:
                 s = tmo.Stream(None, T=T, P=P, phase=ph, thermo=th)
@@ -627,7 +633,7 @@ def run_impl(case: Case) -> ImplResult:
                     fail('isothermal-identity:' + kindtag,
                          f'isothermal reaction at T={T0}: ΔHnet={dHnet!r} but Σ dH·feed={heat!r}, latent part={lat!r}, '
                          f'ΔH={H1 - H0!r} (residual {resid!r}, tolerance {tolv:.3g})')
-                excess = bool(getattr(s.thermo.mixture, 'include_excess_energies', False))
+                excess = bool(getattr(s.thermo.mixture, 'include_excess_energies', False)) or type(s.thermo.mixture) is not tmo.IdealMixture
                 if excess and T0 == TREF: tags.add('info:at-298K-with-excess-energies(H≠0, exact clause not judged)')
                 at_ref = T0 == TREF and not excess and all(
                     (CHEM[IDS[i]]['ref'] == (phases[p] if phases else s.phase)) for m in singles for (p, i, _) in m['rec']['nz'])
@@ -763,12 +769,12 @@ def compare(impl_line, model_line):
 # not), as a share of the operations attempted.  Ceilings ≈ 3× the largest share seen over 12 seeds of the unchanged tree; a
 # regression that makes the T-solver raise or throws the outlet far off must not look like a skip.
 RATE_CEILINGS = {
-    # observed over 10 seeds: ≤ 1.8 %, ≤ 1.8 %, ≤ 0.36 %, 0
+    # observed over 9 seeds (ideal, excess-energy and Peng–Robinson packages): ≤ 1.6 %, ≤ 1.9 %, ≤ 1.22 %, 0
     ('adia', 'adia:solver-raised'): 0.06, ('adia', 'adia:outlet-T-out-of-range'): 0.06,
-    ('adia', 'adia:H-model-irregular-over-interval'): 0.015, ('adia', 'adia:no-H-model-at-outlet'): 0.01,
-    # observed: ≤ 0.05 %, ≤ 0.1 %, ≤ 0.62 %, 0
+    ('adia', 'adia:H-model-irregular-over-interval'): 0.04, ('adia', 'adia:no-H-model-at-outlet'): 0.01,
+    # observed: ≤ 0.11 %, ≤ 0.1 %, ≤ 0.76 %, 0
     ('sethnet', 'sethnet:solver-raised'): 0.01, ('sethnet', 'sethnet:outlet-T-out-of-range'): 0.01,
-    ('sethnet', 'sethnet:H-model-irregular-over-interval'): 0.02, ('sethnet', 'sethnet:no-H-model-at-outlet'): 0.01,
+    ('sethnet', 'sethnet:H-model-irregular-over-interval'): 0.025, ('sethnet', 'sethnet:no-H-model-at-outlet'): 0.01,
 }
 RATE_MIN_OPS = 500
 _RUN = collections.Counter()
@@ -960,7 +966,8 @@ def gen_case(rng):
         flows = ['%s:%s:%s' % (ID, p_, num(a)) for (ID, p_), a in amt.items()]
         P = rng.choice([101325, 101325, 50000, 202650, 1000000, 1500000])
         # property package: chemical order A or B, default ideal mixture or the one that includes excess energies
-        pk = (1 if rng.random() < 0.3 else 0) + (2 if (rng.random() < 0.35 and not refmode) else 0)
+        # chemical order A / B × mixture model: default ideal, ideal with excess energies, Peng–Robinson equation of state
+        pk = (1 if rng.random() < 0.3 else 0) + (0 if refmode else rng.choice([0, 0, 0, 0, 2, 2, 2, 4, 4, 4]))
         sname = 's%d' % sidx
         if not tagging and not refmode and rng.random() < 0.12:
             # the untagged reaction acts on a phase view of a two-phase MultiStream
